@@ -237,6 +237,12 @@ func Value(r *fw.Rand, n int) []byte {
 		b[n-1] = byte(r.Pick(0xF0, 0xFF, 0x10, 0x01, n-1, n))
 	case 5:
 		WithMagic(r, b)
+	case 6:
+		// one value throughout: digital silence and idle patterns (A-law D5, mu-law FF / 7F, 55, 2A ...) are ordinary content
+		v := byte(r.Pick(0xD5, 0xD5, 0x55, 0x7F, 0x80, 0x2A, 0xAA, 0x01, r.Intn(256)))
+		for i := range b {
+			b[i] = v
+		}
 	}
 	return b
 }
